@@ -196,3 +196,238 @@ Proof.
   cbn [Wta.to_disp Wta.o_mask]. unfold fld. rewrite (eqv_fL _ _ Hp), (eqv_fR _ _ Hp).
   apply set_disp_eqv; [exact Hp|apply oq_eqv_refl|apply oq_eqv_refl].
 Qed.
+
+(* ------------------------------------------------------------------ cross-checking: row by row; the disparities are
+   read as numbers (rounded, added, compared with the threshold); the window margin painted by mask_border is the
+   same at the top and at the bottom *)
+
+Lemma rint_comp : forall q q', (q == q')%Q -> CrossCheck.rint q = CrossCheck.rint q'.
+Proof.
+  intros q q' H. unfold CrossCheck.rint. rewrite (Qfloor_comp _ _ H).
+  assert (E : (q - inject_Z (Qfloor q') ?= 1 # 2)%Q = (q' - inject_Z (Qfloor q') ?= 1 # 2)%Q) by (rewrite H; reflexivity).
+  rewrite E. reflexivity.
+Qed.
+
+Section XRowEqv.
+  Import Model.CrossCheck Proofs.CrossCheckP.
+  Variables (nc : Z) (dL dR dL' dR' : Z -> option Q) (mk mk' : Z -> Z) (thr : Q) (dmin dmax : Z).
+  Hypothesis HdL : forall j, 0 <= j < nc -> oq_eqv (dL j) (dL' j).
+  Hypothesis HdR : forall j, 0 <= j < nc -> oq_eqv (dR j) (dR' j).
+  Hypothesis Hmk : forall j, 0 <= j < nc -> mk j = mk' j.
+
+  Lemma hit_eqv : forall c d, hit nc dR c d = hit nc dR' c d.
+  Proof.
+    intros c d. unfold hit. cbv zeta. destruct ((0 <=? d + c) && (d + c <? nc)) eqn:E; [|reflexivity].
+    pose proof (HdR (d + c) ltac:(lia)) as H. destruct (dR (d + c)), (dR' (d + c)); cbn in H; try tauto.
+    rewrite (rint_comp _ _ H). reflexivity.
+  Qed.
+
+  Lemma comp_eqv : forall c, comp nc dR dmin dmax c = comp nc dR' dmin dmax c.
+  Proof. intro c. unfold comp. cbv zeta. rewrite (filter_ext _ _ (hit_eqv c)). reflexivity. Qed.
+
+  Lemma pixel_mask_eqv : forall c, 0 <= c < nc ->
+    pixel_mask true true nc dL dR mk thr dmin dmax c = pixel_mask true true nc dL' dR' mk' thr dmin dmax c.
+  Proof.
+    intros c Hc. unfold pixel_mask. rewrite <- (Hmk c Hc).
+    destruct ((0 <=? c) && (c <? nc) && is_valid (mk c)); [|reflexivity].
+    assert (Ecr : col_right_of true dL c = col_right_of true dL' c).
+    { unfold col_right_of. pose proof (HdL c Hc) as H. destruct (dL c), (dL' c); cbn in H; try tauto.
+      rewrite (rint_comp _ _ H). reflexivity. }
+    rewrite <- Ecr. set (q := col_right_of true dL c).
+    destruct (in_img nc q) eqn:Ein; [|reflexivity].
+    rewrite <- comp_eqv.
+    assert (Eg : egt (dist dL dR (c, q)) thr = egt (dist dL' dR' (c, q)) thr).
+    { unfold dist. cbn [fst snd]. unfold in_img in Ein.
+      pose proof (HdL c Hc) as H1. pose proof (HdR q ltac:(lia)) as H2.
+      destruct (dL c), (dL' c); cbn in H1; try tauto; destruct (dR q), (dR' q); cbn in H2; try tauto; cbn [ext_of eadd eabs egt];
+        try reflexivity.
+      rewrite H1, H2. reflexivity. }
+    rewrite Eg. reflexivity.
+  Qed.
+End XRowEqv.
+
+Lemma xcheck_mask_at : forall thr me other r c, 0 <= r < CrossCheck.ds_nr me -> 0 <= c < CrossCheck.ds_nc me ->
+  CrossCheck.ds_mask (CrossCheck.xcheck thr me other) r c
+  = if (0 <? CrossCheck.ds_offset me)
+       && Spec.CrossCheck.is_border (CrossCheck.ds_nr me) (CrossCheck.ds_nc me) (CrossCheck.ds_offset me) r c
+    then CrossCheck.MSK_BORDER
+    else CrossCheckP.pixel_mask true true (CrossCheck.ds_nc me) (CrossCheck.ds_disp me r) (CrossCheck.ds_disp other r)
+           (CrossCheck.ds_mask me r) thr (CrossCheck.ds_dmin me) (CrossCheck.ds_dmax me) c.
+Proof.
+  intros thr me other r c Hr Hc. unfold CrossCheck.xcheck, CrossCheck.xcheck_gen. cbn [CrossCheck.ds_mask].
+  assert (Em : CrossCheck.xcheck_mask true true thr me other r c
+               = CrossCheckP.pixel_mask true true (CrossCheck.ds_nc me) (CrossCheck.ds_disp me r) (CrossCheck.ds_disp other r)
+                   (CrossCheck.ds_mask me r) thr (CrossCheck.ds_dmin me) (CrossCheck.ds_dmax me) c).
+  { unfold CrossCheck.xcheck_mask. replace ((0 <=? r) && (r <? CrossCheck.ds_nr me)) with true by lia.
+    apply CrossCheckP.mask_row_pixel. }
+  destruct (0 <? CrossCheck.ds_offset me) eqn:Eo; cbn [andb]; [|exact Em].
+  rewrite CrossCheckP.mask_border_spec by lia. rewrite Em. reflexivity.
+Qed.
+
+Theorem xcheck_step_flip : forall thr G, flip_ok pix_eqv (xcheck_step thr G).
+Proof.
+  intros thr G F' F HF r c Hin. pose proof (fl_nr F' F HF) as En. pose proof (fl_nc F' F HF) as Ec.
+  pose proof (fl_at F' F HF r c Hin) as Hp. destruct Hin as [Hr Hc].
+  assert (Hr' : 0 <= frow F r < f_nr F) by (unfold frow; lia).
+  assert (Hrow : forall j, 0 <= j < f_nc F -> pix_eqv (f_at F' r j) (f_at F (frow F r) j)).
+  { intros j Hj. apply (fl_at F' F HF). split; assumption. }
+  unfold xcheck_step. cbv zeta.
+  rewrite !xcheck_mask_at by (cbn [CrossCheck.ds_nr CrossCheck.ds_nc ds_left ds_right CrossCheck.xcheck CrossCheck.xcheck_gen]; lia).
+  cbn [CrossCheck.ds_nr CrossCheck.ds_nc CrossCheck.ds_disp CrossCheck.ds_mask CrossCheck.ds_dmin CrossCheck.ds_dmax
+       CrossCheck.ds_offset ds_left ds_right CrossCheck.xcheck CrossCheck.xcheck_gen].
+  rewrite En, Ec.
+  assert (Eb : Spec.CrossCheck.is_border (f_nr F) (f_nc F) (MatchingCost.offset (g_w G)) r c
+               = Spec.CrossCheck.is_border (f_nr F) (f_nc F) (MatchingCost.offset (g_w G)) (frow F r) c).
+  { unfold Spec.CrossCheck.is_border, frow.
+    destruct (r <? MatchingCost.offset (g_w G)) eqn:E1; destruct (f_nr F - MatchingCost.offset (g_w G) <=? r) eqn:E2;
+      destruct (f_nr F - 1 - r <? MatchingCost.offset (g_w G)) eqn:E3;
+      destruct (f_nr F - MatchingCost.offset (g_w G) <=? f_nr F - 1 - r) eqn:E4; cbn [orb]; try reflexivity; lia. }
+  rewrite Eb.
+  rewrite (pixel_mask_eqv (f_nc F) (fld p_dL F' r) (fld p_dR F' r) (fld p_dL F (frow F r)) (fld p_dR F (frow F r))
+             (fld p_fL F' r) (fld p_fL F (frow F r)) thr (g_dmin G) (g_dmax G)); try assumption.
+  2:{ intros j Hj. apply eqv_dL, Hrow, Hj. } 2:{ intros j Hj. apply eqv_dR, Hrow, Hj. }
+  2:{ intros j Hj. apply eqv_fL, Hrow, Hj. }
+  rewrite (pixel_mask_eqv (f_nc F) (fld p_dR F' r) (fld p_dL F' r) (fld p_dR F (frow F r)) (fld p_dL F (frow F r))
+             (fld p_fR F' r) (fld p_fR F (frow F r)) thr (- g_dmax G) (- g_dmin G)); try assumption.
+  2:{ intros j Hj. apply eqv_dR, Hrow, Hj. } 2:{ intros j Hj. apply eqv_dL, Hrow, Hj. }
+  2:{ intros j Hj. apply eqv_fR, Hrow, Hj. }
+  apply set_disp_eqv; [exact Hp|apply eqv_dL; exact Hp|apply eqv_dR; exact Hp].
+Qed.
+
+(* ------------------------------------------------------------------ windows read upside down *)
+
+From Pandora Require Spec.Filters Proofs.FiltersP.
+From Coq Require Import Lqa FinFun.
+
+(* l' holds the values of l in another order, each as the same number *)
+Definition oqperm (l' l : list (option Q)) : Prop := exists m, Forall2 oq_eqv l' m /\ Permutation m l.
+
+Lemma F2_map_in : forall {X Y} (R : Y -> Y -> Prop) (f g : X -> Y) l,
+  (forall x, In x l -> R (f x) (g x)) -> Forall2 R (map f l) (map g l).
+Proof.
+  induction l as [|a l IH]; intros H; cbn [map]; constructor.
+  - apply H. now left.
+  - apply IH. intros; apply H; now right.
+Qed.
+Lemma F2_flat_map_in : forall {X Y} (R : Y -> Y -> Prop) (f g : X -> list Y) l,
+  (forall x, In x l -> Forall2 R (f x) (g x)) -> Forall2 R (flat_map f l) (flat_map g l).
+Proof.
+  induction l as [|a l IH]; intros H; cbn [flat_map]; [constructor|].
+  apply Forall2_app; [apply H; now left|apply IH; intros; apply H; now right].
+Qed.
+Lemma flat_map_map : forall {X Y W} (f : Y -> list W) (g : X -> Y) l,
+  flat_map f (map g l) = flat_map (fun x => f (g x)) l.
+Proof. induction l as [|a l IH]; cbn [map flat_map]; [reflexivity|]. now rewrite IH. Qed.
+
+Lemma arr_zrange_NoDup : forall w, NoDup (Arr.zrange w).
+Proof. intro w. unfold Arr.zrange. apply Injective_map_NoDup; [intros a b; apply Nat2Z.inj|apply seq_NoDup]. Qed.
+
+(* the indices 0 .. w-1 read backwards *)
+Lemma zrange_rev_perm : forall w, Permutation (map (fun a => w - 1 - a) (Arr.zrange w)) (Arr.zrange w).
+Proof.
+  intro w. apply NoDup_Permutation.
+  - apply Injective_map_NoDup; [intros a b; lia|apply arr_zrange_NoDup].
+  - apply arr_zrange_NoDup.
+  - intro x. rewrite in_map_iff. split.
+    + intros (a & <- & Ha). apply FiltersP.In_zrange in Ha. apply FiltersP.In_zrange. lia.
+    + intro Hx. apply FiltersP.In_zrange in Hx. exists (w - 1 - x). split; [lia|]. apply FiltersP.In_zrange. lia.
+Qed.
+
+Lemma window_flip : forall (md' md : Filters.map2) w i' i j,
+  (forall a b, 0 <= a < w -> 0 <= b < w -> oq_eqv (md' (i' + a) (j + b)) (md (i + (w - 1 - a)) (j + b))) ->
+  oqperm (Filters.window md' w i' j) (Filters.window md w i j).
+Proof.
+  intros md' md w i' i j H. unfold Filters.window.
+  exists (flat_map (fun a => map (fun b => md (i + (w - 1 - a)) (j + b)) (Arr.zrange w)) (Arr.zrange w)). split.
+  - apply F2_flat_map_in. intros a Ha. apply F2_map_in. intros b Hb.
+    apply FiltersP.In_zrange in Ha. apply FiltersP.In_zrange in Hb. apply H; assumption.
+  - rewrite <- (flat_map_map (fun a' => map (fun b => md (i + a') (j + b)) (Arr.zrange w)) (fun a => w - 1 - a)).
+    apply Permutation_flat_map. apply zrange_rev_perm.
+Qed.
+
+Lemma non_nan_F2 : forall l m, Forall2 oq_eqv l m -> Forall2 Qeq (Filters.non_nan l) (Filters.non_nan m).
+Proof.
+  induction 1 as [|x y l m Hxy H IH]; cbn [Filters.non_nan flat_map]; [constructor|].
+  destruct x, y; cbn in Hxy; try tauto; cbn [app]; constructor; assumption.
+Qed.
+Lemma isort_F2 : forall l m, Forall2 Qeq l m -> Forall2 Qeq (Filters.isort l) (Filters.isort m).
+Proof.
+  induction 1 as [|x y l m Hxy H IH]; cbn [Filters.isort]; [constructor|].
+  apply FiltersP.insert_Qeq_compat; assumption.
+Qed.
+
+(* np.nanmedian does not depend on the order of the window, nor on the fractions that hold its values *)
+Lemma nanmedian_oqperm : forall l' l, oqperm l' l -> oq_eqv (Filters.nanmedian l') (Filters.nanmedian l).
+Proof.
+  intros l' l (m & H1 & H2). unfold Filters.nanmedian.
+  assert (HS : Forall2 Qeq (Filters.isort (Filters.non_nan l')) (Filters.isort (Filters.non_nan l))).
+  { eapply FiltersP.F2Qeq_trans; [apply isort_F2, non_nan_F2, H1|].
+    apply FiltersP.isort_perm_Qeq. unfold Filters.non_nan. apply Permutation_flat_map. exact H2. }
+  destruct HS as [|x y s s' Hxy HS]; [exact I|]. unfold oq_eqv.
+  rewrite !FiltersP.middle_mid. apply FiltersP.mid_Qeq. constructor; assumption.
+Qed.
+
+Lemma odd_half : forall w, 0 < w -> Z.odd w = true -> w = 2 * (w / 2) + 1.
+Proof. intros w Hw Ho. pose proof (Z.div_mod w 2 ltac:(lia)) as E. rewrite Zmod_odd, Ho in E. exact E. Qed.
+
+(* ------------------------------------------------------------------ median filter (odd filter_size) *)
+
+Section MedianFlip.
+  Variables (inv B w : Z).
+  Hypothesis HB : 1 <= B.
+  Hypothesis Hw : 0 < w.
+  Hypothesis Hodd : Z.odd w = true.
+  Let rad := w / 2.
+
+  (* what the filter writes at ANY pixel of the image *)
+  Lemma median_map_at : forall ny nx disp mask r c,
+    median_map inv B w ny nx disp mask r c =
+    let md := Filters.masked_data inv disp mask in
+    if Filters.is_none (md r c) then disp r c
+    else if (ny <? w) || (nx <? w) then md r c
+    else if (rad <=? r) && (r <? rad + (ny - w + 1)) && (rad <=? c) && (c <? rad + (nx - w + 1))
+         then Filters.nanmedian (Filters.window md w (r - rad) (c - rad)) else md r c.
+  Proof.
+    intros ny nx disp mask r c. unfold median_map, Filters.median_filter_disparity, Filters.median_filter. cbv zeta. cbn [fst].
+    destruct (Filters.is_none (Filters.masked_data inv disp mask r c)) eqn:En; [reflexivity|].
+    destruct ((ny <? w) || (nx <? w)) eqn:Es; [reflexivity|]. rewrite En.
+    fold rad. rewrite loop2_spec by lia. reflexivity.
+  Qed.
+
+  Lemma median_map_flip : forall ny nx disp' mask' disp mask,
+    (forall r c, 0 <= r < ny -> 0 <= c < nx -> oq_eqv (disp' r c) (disp (ny - 1 - r) c) /\ mask' r c = mask (ny - 1 - r) c) ->
+    forall r c, 0 <= r < ny -> 0 <= c < nx ->
+    oq_eqv (median_map inv B w ny nx disp' mask' r c) (median_map inv B w ny nx disp mask (ny - 1 - r) c).
+  Proof.
+    intros ny nx disp' mask' disp mask H r c Hr Hc. pose proof (odd_half w Hw Hodd) as Ew. fold rad in Ew.
+    assert (Hmd : forall r c, 0 <= r < ny -> 0 <= c < nx ->
+              oq_eqv (Filters.masked_data inv disp' mask' r c) (Filters.masked_data inv disp mask (ny - 1 - r) c)).
+    { intros r0 c0 Hr0 Hc0. unfold Filters.masked_data. destruct (H r0 c0 Hr0 Hc0) as [H1 ->].
+      destruct (Filters.invalid_px inv (mask (ny - 1 - r0) c0)); [exact I|exact H1]. }
+    rewrite !median_map_at. cbv zeta.
+    rewrite (oq_eqv_none _ _ (Hmd r c Hr Hc)).
+    destruct (Filters.is_none (Filters.masked_data inv disp mask (ny - 1 - r) c)); [apply H; assumption|].
+    destruct ((ny <? w) || (nx <? w)) eqn:Es; [apply Hmd; assumption|].
+    replace ((rad <=? ny - 1 - r) && (ny - 1 - r <? rad + (ny - w + 1)))
+      with ((rad <=? r) && (r <? rad + (ny - w + 1))) by lia.
+    destruct ((rad <=? r) && (r <? rad + (ny - w + 1)) && (rad <=? c) && (c <? rad + (nx - w + 1))) eqn:Ei;
+      [|apply Hmd; assumption].
+    apply nanmedian_oqperm. apply window_flip. intros a b Ha Hb.
+    replace (ny - 1 - r - rad + (w - 1 - a)) with (ny - 1 - (r - rad + a)) by lia.
+    apply Hmd; lia.
+  Qed.
+
+  Theorem median_step_flip : flip_ok pix_eqv (median_step inv B w).
+  Proof.
+    intros F' F HF r c Hin. pose proof (fl_nr F' F HF) as En. pose proof (fl_nc F' F HF) as Ec.
+    pose proof (fl_at F' F HF r c Hin) as Hp. destruct Hin as [Hr Hc].
+    unfold median_step. cbv zeta. rewrite En, Ec. rewrite (eqv_fL _ _ Hp), (eqv_fR _ _ Hp).
+    apply set_disp_eqv; [exact Hp| |].
+    - apply (median_map_flip (f_nr F) (f_nc F)); try assumption.
+      intros r0 c0 Hr0 Hc0. pose proof (fl_at F' F HF r0 c0 (conj Hr0 Hc0)) as H0. unfold fld, frow in *.
+      split; [apply eqv_dL, H0|apply eqv_fL, H0].
+    - apply (median_map_flip (f_nr F) (f_nc F)); try assumption.
+      intros r0 c0 Hr0 Hc0. pose proof (fl_at F' F HF r0 c0 (conj Hr0 Hc0)) as H0. unfold fld, frow in *.
+      split; [apply eqv_dR, H0|apply eqv_fR, H0].
+  Qed.
+End MedianFlip.
